@@ -705,6 +705,16 @@ fn replay(path: &str) -> i32 {
             check_text(t).and_then(|_| check_in_place(t, None)).and_then(|_| check_in_place(t, Some(t.as_bytes()))).and_then(|_| check_feeds(t, t.as_bytes()))
         }
         "json_doc" => check_json_doc(case["doc"].as_str().unwrap_or("")),
+        "crash_run" => {
+            let exe = std::env::current_exe().expect("current_exe");
+            let tier = case["tier"].as_str().unwrap_or("quick").to_string();
+            let seed = case["seed"].as_u64().unwrap_or(0).to_string();
+            match std::process::Command::new(&exe).args(["run", &tier]).env("VERIF_SEED", seed).stdout(std::process::Stdio::null()).status() {
+                Ok(st) if st.code().is_none() => Err("the engine died on a signal again".to_string()),
+                Ok(_) => Ok(()),
+                Err(e) => return { eprintln!("cannot spawn engine: {e}"); 2 },
+            }
+        }
         _ => return 2,
     };
     match r {
@@ -725,9 +735,36 @@ fn main() -> ExitCode {
     let seed: u64 = std::env::var("VERIF_SEED").ok().and_then(|s| s.parse().ok()).unwrap_or(0);
     lsv_core::outcome::silence_panics();
     match args.get(1).map(|s| s.as_str()) {
-        Some("check") => {
+        Some("run") => {
             let tier = if args.iter().any(|a| a == "thorough") { Tier::Thorough } else { Tier::Quick };
             ExitCode::from(c19(tier, seed).exit_code as u8)
+        }
+        // supervisor: the engine runs in a child; if it dies on a signal (memory fault, abort) that is a finding about
+        // the integrations (a value that cannot even be read or dropped), reproduced by re-running the same seeded run
+        Some("check") => {
+            let tier = if args.iter().any(|a| a == "thorough") { "thorough" } else { "quick" };
+            let exe = std::env::current_exe().expect("current_exe");
+            match std::process::Command::new(&exe).args(["run", tier]).status() {
+                Ok(st) => match st.code() {
+                    Some(c) => ExitCode::from(c as u8),
+                    None => {
+                        let mut merged = lsv_core::runner::Merged::new();
+                        merged.evaluations = 1;
+                        merged.violation = Some(viol(
+                            json!({"kind": "crash_run", "tier": tier, "seed": seed}),
+                            "C19.crash",
+                            "the engine died on a signal (memory fault or abort) during this seeded run of the serde / arbitrary checks".into(),
+                        ));
+                        let t = if tier == "thorough" { Tier::Thorough } else { Tier::Quick };
+                        let v = lsv_core::runner::finish("C19", t, seed, "exploration", "crash of the engine process", &[], &merged, 0.0, "lsv-features");
+                        ExitCode::from(v.exit_code as u8)
+                    }
+                },
+                Err(e) => {
+                    eprintln!("cannot spawn engine: {e}");
+                    ExitCode::from(2)
+                }
+            }
         }
         Some("replay") => ExitCode::from(replay(&args[2]) as u8),
         _ => ExitCode::from(2),
